@@ -250,7 +250,7 @@ def _subset(fields, message):
 
 
 def _variant(message, mode, pick):
-    """Expected-field dicts: 0 empty, 1 subset, 2 all, 3 perturbed value, 4 extra key."""
+    """Expected-field dicts: 0 empty, 1 subset, 2 all, 3 perturbed value, 4 extra key, 5 absent key expected to be None."""
     keys = sorted(k for k in message if k not in ("timestamp",))
     if mode == 0 or not keys:
         return {}
@@ -262,6 +262,8 @@ def _variant(message, mode, pick):
     if mode == 3:
         k = keys[pick % len(keys)]
         return {k: ("perturbed", pick)}
+    if mode == 5:
+        return {"no_such_field_%d" % pick: None}
     return {"no_such_field_%d" % pick: 1}
 
 
@@ -274,7 +276,7 @@ def classify(case, info):
 
 
 def strategy():
-    variant = st.tuples(st.integers(0, 4), st.integers(0, 4), st.integers(0, 5), st.integers(0, 5), st.sampled_from([0, 0, 0, 1])).map(list)
+    variant = st.tuples(st.integers(0, 5), st.integers(0, 5), st.integers(0, 5), st.integers(0, 5), st.sampled_from([0, 0, 0, 1])).map(list)
     return st.builds(
         lambda asserts, p: {"asserts": asserts, "program": p},
         st.lists(variant, min_size=1, max_size=4),
